@@ -30,6 +30,7 @@ inductive Op where
   | setMultiple (path : List Name)                             -- set_multiple
   | setText (path : List Name)                                 -- text = Some(..)
   | get (path : List Name) (name : Name)                       -- get_child (observation only)
+  | move (src : List Name) (name : Name) (dst : List Name)     -- add_unique_child(remove_child(name).into_inner_t()): a child that carries its position and subtree
 deriving Repr
 
 /-- what an operation returns: the name and tag of the child found by `remove_child` / `get_child` -/
@@ -45,6 +46,13 @@ def applyOp (t : Elem) : Op → Elem × OpResult
   | .setMultiple path => (modifyAt path Elem.setMultiple t, none)
   | .setText path => (modifyAt path (fun e => e.setText true) t, none)
   | .get path name => (t, (elemAt path t).bind fun e => (getChild e.children name).map fun c => (c.1, c.2.name))
+  | .move src name dst =>
+    match (elemAt src t).bind fun e => getChild e.children name with
+    | none => (t, none)
+    | some c =>
+      -- taken out of its parent, then handed to `add_unique_child` of the destination (dropped if that no longer exists)
+      let t1 := modifyAt src (fun e => e.setChildren (eraseChild e.children name)) t
+      (modifyAt dst (fun e => e.setChildren (addUniqueChild e.children c.2)) t1, some (c.1, c.2.name))
 
 /-- the pinned (pre-F3) semantics of `add` -/
 def applyOpPinned (t : Elem) : Op → Elem × OpResult
